@@ -38,11 +38,14 @@ def _rows(r1, r2):
     return {'orders': [{'amount': r1, 'ref': 'a', 'total': 9}, {'amount': r2, 'ref': 'b', 'total': 120}]}
 
 
-def bad_match(i):
-    """[Bad] (category CB, tags tb) carries an expression that may have no value; [Good] and [Tag] are ordinary."""
+def bad_match(i, after=False):
+    """[Bad] (category CB, tags tb) carries an expression that may have no value; [Good] and [Tag] are ordinary.
+    after=True: a tag-only rule that may match the same transaction stands directly before [Bad]."""
     from harness import tmpl
     expr = BAD_MATCH[i]
+    pre = '[Pre]\nmatch: contains("@P2") or amount > 9002\ntags: tp\n' if after else ''
     text = f'''
+{pre}
 [Bad]
 match: {expr}
 category: CB
@@ -110,6 +113,41 @@ category: CPlain
         winner, _ = tmpl.oracle_first_match(eng, dict(t2), rows)
         exp = (False, '') if winner is None else (True, winner.category)
         return post((res.matched, res.category) == exp)
+    return ob
+
+
+def sequence_bad_regex():
+    """A condition with a regular expression that does not compile has no value EVERY time it is evaluated - for the second
+    transaction on the same engine as for the first.  The oracle is the independent reference interpreter."""
+    from harness import tmpl
+    text = '''
+[Rides]
+match: contains("@P1") and not regex("EATS(")
+category: CR
+tags: rides
+
+[Plain]
+match: contains("@P2") or regex("[a-") or contains("@P1")
+category: CPlain
+'''
+
+    def ob(d1: str, d2: str, s1: str, s2: str) -> bool:
+        """
+        pre: len(d1) <= 2 and len(d2) <= 2 and len(s1) <= 1 and len(s2) <= 1
+        post: _
+        """
+        reset_tally_caches()
+        values = {'@P1': s1, '@P2': s2}
+        eng = tmpl.load(text, values)
+        t1 = {'description': d1, 'amount': 5, 'field': {'k': 'kv'}, 'source': 'S'}
+        t2 = {'description': d2, 'amount': 5, 'field': {'k': 'kv'}, 'source': 'S'}
+        ok = True
+        for t in (t1, t2, t1):
+            res = eng.match(dict(t))
+            winner, _ = tmpl.oracle_first_match_ref(eng, dict(t), values)
+            exp = (False, '') if winner is None else (True, winner.category)
+            ok = ok and (res.matched, res.category) == exp
+        return post(ok)
     return ob
 
 
@@ -335,8 +373,13 @@ def obligations(tier, seed):
     obs = []
     to = 100 if q else 600
     for i, e in enumerate(BAD_MATCH):
+        if i % 4 == 0:
+            obs.append(Obligation(id=f'match-{i:02d}-after', factory='bad_match', params={'i': i, 'after': True}, timeout=to, group='ill-typed match expression',
+                                  bounds=f'{BAD_MATCH[i]!r} directly after a tag-only rule that may match the same transaction; same bounds'))
         obs.append(Obligation(id=f'match-{i:02d}', factory='bad_match', params={'i': i}, timeout=to, group='ill-typed match expression',
                               bounds=f'[Bad] match: {e}; description <= 2, operands <= 1 char / ints, 2 supplemental rows with symbolic amounts'))
+    obs.append(Obligation(id='sequence-bad-regex', factory='sequence_bad_regex', timeout=to, group='item independence',
+                          bounds='two rules with regular expressions that do not compile; three classifications on one engine; descriptions <= 2, constants <= 1 chars'))
     obs.append(Obligation(id='sequence-same-engine', factory='sequence_same_engine', timeout=to, group='item independence',
                           bounds='two transactions on one engine; field value <= 1 char each; the rule has no value when no supplemental row matches'))
     for pos in POSITIONS:
